@@ -96,3 +96,12 @@ def check_wellformed(E, label, x):
         E.true(label + '_full_shape', list(f.shape) == [int(c.shape[1]) for c in cores] + [int(c.shape[2]) for c in cores])
     else:
         E.true(label + '_full_shape', list(f.shape) == [int(c.shape[1]) for c in cores])
+
+
+def abs2sum(E, t):
+    """sum of |entries|^2 as a python/symbolic real scalar (complex tensors: re^2 + im^2)"""
+    tn = E.tn
+    if str(t.dtype).replace('torch.', '').startswith('complex'):
+        re, im = tn.real(t), tn.imag(t)
+        return (tn.sum(re * re) + tn.sum(im * im)).item()
+    return tn.sum(t * t).item()
